@@ -128,6 +128,7 @@ func (p *Program) ApplyFrozenNames(path string) (renamed int, err error) {
 	if err := json.Unmarshal(b, &frozen); err != nil {
 		return 0, err
 	}
+	p.detectHelpers(frozen)
 	cur := p.CurrentNames()
 	for _, f := range p.Funcs {
 		key := FuncName(f)
